@@ -39,7 +39,11 @@ needs=""
 m=re.search(r'What is needed[^\n]*\n(.*?)(\n\S|\Z)',desc,re.S)
 if m: needs=" ".join(m.group(1).split())
 head=subprocess.run(['git','-C','/repo','rev-parse','--short','HEAD'],capture_output=True,text=True).stdout.strip()
-meta={"property":P,"seed":int(N),"origin":"fresh sub-agent given only the property text and a scratch worktree","repo_head":head,
+import os
+lines=[l.strip() for l in desc.splitlines() if l.strip()]
+first=re.sub(r'^[#*\s]*[Ss]eed\s*\d+\s*[:—-]*\s*','',lines[0]).strip(' *#') if lines else ''
+if len(first)<25 and len(lines)>1: first=(first+' — '+lines[1]).strip(' —')
+meta={"property":P,"seed":int(N),"summary":first[:170],"first_run":os.environ.get("FIRST","?"),"origin":"fresh sub-agent given only the property text and a scratch worktree","repo_head":head,
  "files_changed":re.findall(r'^\+\+\+ b/(\S+)',open(D+'/patch.diff').read(),re.M),
  "needs_to_manifest":needs,
  "what_i_ran":{
